@@ -393,6 +393,98 @@ _B = ('classes K0, K1(K0), K2(K0), K3(K1,K2), dynamically created S(K1) (plain /
       'interfaces IA, IB(IA), IC, ID(IB,IC); objects: two instances of K1, one of K2, one of K3, a late instance of K1, the '
       'class K1 used as an object, an instance of S; ')
 
+
+# ---------------------------------------------------------------------------------------------------------------
+# e_metaclass: a class whose metaclass has declarations of its own.  As an object the class provides what its metaclass
+# implements plus its own direct declarations; its instances provide what the class implements; a subclass object does
+# not inherit the direct declarations of its base class object.
+MC_OPS = ['query instance of C', 'query C', 'classImplements(C, IItem)', 'classImplementsOnly(C, IItem)', 'directlyProvides(C, IOther)',
+          'alsoProvides(C, IOther)', 'noLongerProvides(C, IOther)', 'classImplements(Meta, IMore)', 'directlyProvides(C)',
+          'alsoProvides(D, IOther)', 'create C2 = Meta(...) late and query its instance']
+
+
+def run_metaclass(ops):
+    from zope.interface import (Interface, alsoProvides, classImplements, classImplementsOnly, directlyProvides, implementer,
+                                noLongerProvides, providedBy)
+    from zope.interface.interface import InterfaceClass
+    mod = U.fresh_module_name()
+    IKind, IItem, IOther, IMore = [InterfaceClass(n, (Interface,), __module__=mod) for n in ('IKind', 'IItem', 'IOther', 'IMore')]
+    ALL = (IKind, IItem, IOther, IMore)
+
+    @implementer(IKind)
+    class Meta(type):
+        pass
+    C = Meta('C', (object,), {})
+    D = Meta('D', (C,), {})
+    state = dict(meta={IKind}, impl_c=set(), direct_c=set(), direct_d=set())
+    extra = []
+    hist = []
+    for op in ops:
+        hist.append(MC_OPS[op])
+        if op == 0:
+            IItem.providedBy(C())
+        elif op == 1:
+            IKind.providedBy(C)
+        elif op == 2:
+            classImplements(C, IItem)
+            state['impl_c'].add(IItem)
+        elif op == 3:
+            classImplementsOnly(C, IItem)
+            state['impl_c'] = {IItem}
+        elif op == 4:
+            directlyProvides(C, IOther)
+            state['direct_c'] = {IOther}
+        elif op == 5:
+            alsoProvides(C, IOther)
+            state['direct_c'].add(IOther)
+        elif op == 6:
+            if IOther not in state['direct_c']:
+                return False
+            noLongerProvides(C, IOther)
+            state['direct_c'].discard(IOther)
+        elif op == 7:
+            classImplements(Meta, IMore)
+            state['meta'].add(IMore)
+        elif op == 8:
+            directlyProvides(C)
+            state['direct_c'] = set()
+        elif op == 9:
+            alsoProvides(D, IOther)
+            state['direct_d'].add(IOther)
+        else:
+            C2 = Meta('C2', (object,), {})
+            IItem.providedBy(C2())
+            extra.append(C2)
+        exp = [('the class object C', C, state['meta'] | state['direct_c']),
+               ('the subclass object D', D, state['meta'] | state['direct_d']),
+               ('an instance of C', C(), set(state['impl_c'])),
+               ('an instance of D', D(), set(state['impl_c']))]
+        for c2 in extra:
+            exp.append(('the late class object C2', c2, set(state['meta'])))
+        for label, ob, want in exp:
+            flat = set(x for x in providedBy(ob).flattened() if x in ALL)
+            byi = set(I for I in ALL if I.providedBy(ob))
+            if flat != want or byi != want:
+                raise Violation('metaclass Meta implements IKind; history [%s]: %s provides %s (I.providedBy: %s), the declarations say %s' % (
+                    '; '.join(hist), label, sorted(x.__name__ for x in flat), sorted(x.__name__ for x in byi),
+                    sorted(x.__name__ for x in want)), signature='C01:metaclass')
+    return True
+
+
+def make_e_metaclass(params, part, nparts):
+    L = params.get('L', 3)
+    NO_ = len(MC_OPS)
+
+    def h(n: int, o1: int, o2: int, o3: int, o4: int):
+        c1 = pick(o1, NO_)
+        assume(c1 % nparts == part)
+        ln = pick(n, L) + 1
+        ops = (c1,) + tuple(pick(o, NO_) for o in (o2, o3, o4)[:ln - 1])
+        ok = native(run_metaclass, ops)
+        assume(ok)
+        reached(ops, dict(history=[MC_OPS[o] for o in ops]))
+    return h
+
 HARNESSES = [
     Harness('e_decl_reduced', make_e, kind='E', impls=('py', 'c'),
             tiers=dict(quick=dict(budget_s=150, parts=16, params=dict(L=3)),
@@ -419,6 +511,16 @@ HARNESSES = [
                         'instance-declaration forms x 8 objects x 4 interfaces + clearing, 4 ways of creating S, late instance, query); '
                         'quick: pure-Python build, thorough: both builds',
             oracle='as e_decl_reduced'),
+    Harness('e_metaclass', make_e_metaclass, kind='E', impls=('py', 'c'),
+            tiers=dict(quick=dict(budget_s=90, parts=11, params=dict(L=3)), thorough=dict(budget_s=900, parts=11, params=dict(L=4))),
+            encoded=_ENC,
+            bounds='a class C (and subclass D) whose metaclass Meta(type) itself implements an interface; every history of <=3 (thorough 4) ops '
+                   'from 11: queries of an instance / of the class object, classImplements / classImplementsOnly on C, directlyProvides / '
+                   'alsoProvides / noLongerProvides / clearing on the class object, a declaration on the metaclass, a declaration on the '
+                   'subclass object, a class created late; after every op the class objects and instances are observed',
+            outside='metaclass hierarchies deeper than one level',
+            oracle='set model: a class object provides implements(metaclass) + its own direct declarations (not those of a base class '
+                   'object); an instance provides implements(class)'),
 ]
 
 ASSUMPTIONS = ['class __bases__ are never reassigned (documented as unsupported)',
